@@ -40,6 +40,72 @@ fn esc(s: &str) -> String {
     o
 }
 
+/// entries of a `&'static [bitflags::Flag<T>]` constant: [{"named":bool,"value":"0x.."}]
+fn flag_table<'tcx>(
+    tcx: TyCtxt<'tcx>,
+    alloc_id: rustc_middle::mir::interpret::AllocId,
+    off: usize,
+    elem: Ty<'tcx>,
+    adef: ty::AdtDef<'tcx>,
+    _eargs: ty::GenericArgsRef<'tcx>,
+) -> Option<String> {
+    let outer = tcx.global_alloc(alloc_id).unwrap_memory();
+    let oa = outer.inner();
+    // fat pointer: data pointer (with provenance) at `off`, length at `off + 8`
+    let lenb = oa.inspect_with_uninit_and_ptr_outside_interpreter(off + 8..off + 16);
+    let len = u64::from_le_bytes(lenb.try_into().ok()?) as usize;
+    let mut target = None;
+    for (o, prov) in oa.provenance().ptrs().iter() {
+        if o.bytes_usize() == off {
+            target = Some(prov.alloc_id());
+        }
+    }
+    let ptrb = oa.inspect_with_uninit_and_ptr_outside_interpreter(off..off + 8);
+    let inner_off = u64::from_le_bytes(ptrb.try_into().ok()?) as usize;
+    if len == 0 {
+        return Some("[]".into());
+    }
+    let target = target?;
+    let lay = tcx.layout_of(TypingEnv::fully_monomorphized().as_query_input(elem)).ok()?;
+    let esize = lay.size.bytes_usize();
+    let variant = adef.non_enum_variant();
+    let mut name_off = None;
+    let mut value_off = None;
+    let mut value_size = 0usize;
+    for (i, f) in variant.fields.iter().enumerate() {
+        let fo = lay.fields.offset(i).bytes_usize();
+        if f.name.as_str() == "name" {
+            name_off = Some(fo);
+        } else if f.name.as_str() == "value" {
+            value_off = Some(fo);
+            value_size = lay.field(&ty::layout::LayoutCx::new(tcx, TypingEnv::fully_monomorphized()), i).size.bytes_usize();
+        }
+    }
+    let (name_off, value_off) = (name_off?, value_off?);
+    let data = tcx.global_alloc(target).unwrap_memory();
+    let da = data.inner();
+    let mut out = String::from("[");
+    for k in 0..len {
+        let base = inner_off + k * esize;
+        if base + esize > da.len() || value_size == 0 || value_size > 16 {
+            return None;
+        }
+        let nl = da.inspect_with_uninit_and_ptr_outside_interpreter(base + name_off + 8..base + name_off + 16);
+        let nlen = u64::from_le_bytes(nl.try_into().ok()?);
+        let vb = da.inspect_with_uninit_and_ptr_outside_interpreter(base + value_off..base + value_off + value_size);
+        let mut v: u128 = 0;
+        for (i, b) in vb.iter().enumerate() {
+            v |= (*b as u128) << (8 * i);
+        }
+        if k > 0 {
+            out.push(',');
+        }
+        let _ = write!(out, "{{\"named\":{},\"value\":\"{:#x}\"}}", nlen > 0, v);
+    }
+    out.push(']');
+    Some(out)
+}
+
 struct Cx<'tcx> {
     tcx: TyCtxt<'tcx>,
 }
@@ -804,6 +870,7 @@ impl rustc_driver::Callbacks for Cb {
             }
             let ty = tcx.type_of(did).instantiate_identity().skip_norm_wip();
             let mut fnptr = String::from("null");
+            let mut flags_json = String::from("null");
             let (val, bytes) = match tcx.const_eval_poly(did) {
                 Ok(v) => {
                     let mut bytes = String::from("null");
@@ -820,6 +887,21 @@ impl rustc_driver::Callbacks for Cb {
                                 let bs = a.inspect_with_uninit_and_ptr_outside_interpreter(start..end);
                                 let hex: String = bs.iter().map(|b| format!("{:02x}", b)).collect();
                                 bytes = format!("\"{}\"", hex);
+                            }
+                        }
+                    }
+                    // the flag table of a bitflags type (`<T as bitflags::Flags>::FLAGS: &[Flag<T>]`): follow the slice and list every
+                    // entry's value and whether it is named (an unnamed `const _ = ..` entry widens `all()` without adding a constant)
+                    if let mir::ConstValue::Indirect { alloc_id, offset } = v {
+                        if let TyKind::Ref(_, inner, _) = ty.kind() {
+                            if let TyKind::Slice(elem) = inner.kind() {
+                                if let TyKind::Adt(adef, eargs) = elem.kind() {
+                                    if cx.path(adef.did()).ends_with("bitflags::Flag") {
+                                        if let Some(fl) = flag_table(tcx, alloc_id, offset.bytes_usize(), *elem, *adef, eargs) {
+                                            flags_json = fl;
+                                        }
+                                    }
+                                }
                             }
                         }
                     }
@@ -847,12 +929,13 @@ impl rustc_driver::Callbacks for Cb {
             let sp = tcx.def_span(did);
             let _ = write!(
                 out,
-                "\n{{\"name\":{},\"ty\":{},\"val\":{},\"bytes\":{},\"fn\":{},\"vis\":{},\"loc\":{},\"exp\":{},\"impl\":{}}}",
+                "\n{{\"name\":{},\"ty\":{},\"val\":{},\"bytes\":{},\"fn\":{},\"flags\":{},\"vis\":{},\"loc\":{},\"exp\":{},\"impl\":{}}}",
                 esc(&cx.path(did)),
                 cx.ty(ty),
                 esc(&val),
                 bytes,
                 fnptr,
+                flags_json,
                 esc(&format!("{:?}", tcx.visibility(did))),
                 esc(&cx.span_loc(sp)),
                 sp.from_expansion(),
